@@ -29,6 +29,7 @@ import Driver.Frame
 import Driver.LedgerNode
 import Driver.VdbCache
 import Driver.Translated
+import Driver.PeerDesc
 /-
 One line per handler object. The first handler that understands a line answers it.
 -/
@@ -74,7 +75,8 @@ def registry : List Obj := [
   pureObj pureFrame,
   mkObj ({} : PmSt) pmStep,
   ledgerNodeObj,
-  vcObj
+  vcObj,
+  pureObj purePeerDesc
 ]
 
 end ZV.Driver
